@@ -326,8 +326,8 @@ def rows_contract():
                               Clause("implies(not fault, exc._location._line == _i1)", "error-located-at-the-rejected-row", props=["C04", "C06"]),
                               Clause("implies(fault, exc is fault_exc and _i1 == fail_at)", "a-container-fault-propagates-unchanged-in-every-mode-at-the-row-where-it-happened", props=["C06"])]},
         loops={
-            0: LoopSpec(invariants=["resets_done == _i0"], havoc={"check": CHECK}, ghost_havoc={"resets_done": INT}),
-            1: LoopSpec(invariants=["loc._line == _i1", "out_rows == outc(_i1)", "this.accepted_rows_count == cnt_acc(_i1)",
+            0: LoopSpec(invariants=["resets_done == _i0"], havoc={"check": CHECK}, ghost_havoc={"resets_done": INT}, match="self.cid.check_map.values()"),
+            1: LoopSpec(match="enumerate(self._raw_rows(), 1)", invariants=["loc._line == _i1", "out_rows == outc(_i1)", "this.accepted_rows_count == cnt_acc(_i1)",
                                     "implies(mode != 'raise', this.rejected_rows_count == cnt_rej(_i1) and this.accepted_rows_count + this.rejected_rows_count == max0(_i1 - header))",
                                     "implies(mode == 'raise', norej(_i1) and this.rejected_rows_count == 0)", "implies(mode == 'yield', n_err == cnt_rej(_i1))", "implies(mode != 'yield', n_err == 0)",
                                     "last_validated <= _i1", "resets_done == m"],
@@ -396,6 +396,13 @@ class RowsOracle(Oracle):
         if exp_raise is None and (r.accepted_rows_count, r.rejected_rows_count) != (nacc, nrej):
             return {"expected": "counters %r" % ((nacc, nrej),), "observed": "counters %r" % ((r.accepted_rows_count, r.rejected_rows_count),)}
         if log[:1] != [("reset", "c0")] or sum(1 for l in log if l[0] == "reset") != 1: return {"expected": "exactly one reset before anything else", "observed": log[:3]}
+        # a second pass over the same Reader is a new data set: it starts with a reset of its own and gives the same outcome
+        n0 = len(log); out2 = []; raised2 = None
+        try:
+            for x in r.rows(): out2.append(x)
+        except errors.DataError as e: raised2 = e
+        got2 = [x if isinstance(x, list) else ("ERR", x.location.line + 1 - len(rows)) for x in out2]
+        if log[n0:n0 + 1] != [("reset", "c0")]: return {"expected": "a second rows() pass resets the checks before its first row", "observed": log[n0:n0 + 2]}
         return None
     def describe(self, case):
         return {"cells": case[0], "header": case[1], "validate_until": case[2], "on_error": case[3], "call": "validio.Reader(stub cid: 1 field accepting 'a', 1 check).rows() over one-cell rows"}
